@@ -4,19 +4,19 @@ ALL = ["C%02d" % i for i in range(1, 21)]
 TEXT = {
     "C01": dict(
         technique="property-based testing (rapid): generated templates/populations serialized by the library, framing recomputed from the bytes by an independent reference",
-        level_text="Exploration: every generated message (generic templates to depth 4, all tests/fix44 types, default and arbitrary framing tags, steered onto every BodyLength digit boundary and checksum class) is serialized and its BodyLength/CheckSum/field order re-derived from the bytes alone; a metamorphic step mutates the same object and re-serializes, and the byte slices returned earlier must still hold what they held (a caller may have queued them); components, groups and entries are assembled in every way generated code offers (in place, fresh object put into its slot before or after it is populated, entry added before or after it is populated, entry made from Group.AsTemplate). Holds on N sampled cases, not for all.",
+        level_text="Exploration: every generated message (generic templates to depth 4, all tests/fix44 types, default and arbitrary framing tags, steered onto every BodyLength digit boundary and checksum class) is serialized and its BodyLength/CheckSum/field order re-derived from the bytes alone; a metamorphic step mutates the same object and re-serializes, and the byte slices returned earlier must still hold what they held (a caller may have queued them); components, groups and entries are assembled in every way generated code offers (in place, fresh object put into its slot before or after it is populated, entry added before or after it is populated, entry made from Group.AsTemplate). A second engine runs four drawn cases through the same check concurrently (state shared between calls inside the library cannot hide). Holds on N sampled cases, not for all.",
         level_note="Trusted: the harness's reference framing checker (harness/ref, itself tested on hand-counted vectors) and the Go toolchain. Values never contain SOH; header and trailer components are always set.",
         design_ref="DESIGN.md section 4, C01",
     ),
     "C17": dict(
         technique="property-based testing (rapid): wire token list compared with a model-derived list of populated leaves, per installation route and message part",
-        level_text="Exploration: for generated populations using every public constructor, Set, KeyValue.Set and FromBytes of every value type in header, body, trailer, components and group entries, the tokenized output must equal the model's list (tags, order, group counts, canonical texts; Float by a validity predicate), also after a mutation of the same object and for the standalone Component/Items serializers; components, groups and entries are assembled in every way generated code offers (in place / fresh object Set into its slot / entry added before it is populated / entry made from Group.AsTemplate).",
+        level_text="Exploration: for generated populations using every public constructor, Set, KeyValue.Set and FromBytes of every value type in header, body, trailer, components and group entries, the tokenized output must equal the model's list (tags, order, group counts, canonical texts; Float by a validity predicate), also after a mutation of the same object and for the standalone Component/Items serializers; components, groups and entries are assembled in every way generated code offers (in place / fresh object Set into its slot / entry added before it is populated / entry made from Group.AsTemplate). A second engine runs four drawn cases through the same check concurrently.",
         level_note="Trusted: harness/ref tokenizer and the model in harness/gen. Header, body and trailer leaves are all compared (the trailer defect the check found first is repaired).",
         design_ref="DESIGN.md section 4, C17",
     ),
     "C02": dict(
         technique="property-based testing (rapid): serialize/parse round trip judged against the generated model, leaf by leaf, plus re-serialization equality",
-        level_text="Exploration: generated templates (nesting to depth 4, groups in group entries, components, every value type, decoy strings, all tests/fix44 types) are serialized, parsed by encoding.Unmarshal and by DefaultUnmarshaller{Strict:false} into a fresh message, every leaf compared with the generated value (ints exact, floats bit-exact, UTC times, bytes), group entry counts and order, and the parsed message re-serialized to the identical bytes.",
+        level_text="Exploration: generated templates (nesting to depth 4, groups in group entries, components, every value type, decoy strings, all tests/fix44 types) are serialized, parsed by encoding.Unmarshal and by DefaultUnmarshaller{Strict:false} into a fresh message, every leaf compared with the generated value (ints exact, floats bit-exact, UTC times, bytes), group entry counts and order, and the parsed message re-serialized to the identical bytes. A second engine runs four drawn cases through the same check concurrently.",
         level_note="Trusted: the model/compare code in harness/gen and harness/build. C02's preconditions hold by construction (trailers are populated as well); tests/fix44 MarketDataSnapshotFullRefresh is skipped because its generated group type repeats tags of the message (consequence of the generator finding recorded under C12).",
         design_ref="DESIGN.md section 4, C02",
     ),
